@@ -33,7 +33,7 @@ def static_frame():
         if isinstance(n, ast.Subscript) and (isinstance(n.ctx, (ast.Store, ast.Del)) or n in aug):
             base = ast.unparse(n.value)
             n_items += 1
-            obs.append(static_ob("C20.F.item-store.line%d" % n.lineno, base in ("self.arguments", "self.extra_arguments", "globals()"),
+            obs.append(static_ob("C20.F.item-store.line%d" % n.lineno, (base.startswith("self.") or base == "globals()"),
                                  "commands.py:%d item store into %s (a table shared between commands?)" % (n.lineno, base), "ast-scan"))
     obs.append(static_ob("C20.F.item-stores-found", n_items >= 3, "item stores found: %d" % n_items, "ast-scan"))
     # mutating method calls on class-level containers (append / update / setdefault / add on a non-self, non-local base)
